@@ -104,6 +104,7 @@ def module_source(name: str, imports: list[str], variant: int) -> str:
 	ty, lit = TYPES[variant % 4]
 	if name in ANON:
 		return '\n'.join([f'def val() -> {ty}:', f'\treturn {lit}', '', f'v = {lit}', ''])
+	ext = variant // N_VARIANTS		# real-code searches only (the stream stays below N_VARIANTS): bit 0 = FWD block, bit 1 = BROKEN function
 	var_mode = (variant // 4) % 3
 	loc_mode = (variant // 12) % 2
 	deep = (variant // 24) % 2		# whitespace-only difference: `g` is a method of `A_<name>` (0) or of the nested `A_<name>.B` (1)
@@ -111,6 +112,15 @@ def module_source(name: str, imports: list[str], variant: int) -> str:
 	name = name.replace('.', '_')
 	imports = [d.replace('.', '_') for d in imports]
 	lines = [f'from {PKG}.{d} import val, v' if d in ANON else f'from {PKG}.{d} import g_{i}, v_{i}, w_{i}, A_{i}' for d, i in zip(dotted, imports)]
+	if ext & 1:
+		# FORWARD references: a class whose method is annotated with the quoted instantiation of a generic class that is defined
+		# further down, whose own base `G[Item]` names a class defined after the referrer as well (the stored symbol table has to list
+		# Item before K, K before the user: the restore of `<module>-symbols-*.json` rebuilds the symbols in file order)
+		lines = ['from typing import Generic, TypeVar', *lines, '', f"T_{name} = TypeVar('T_{name}')", f"T2_{name} = TypeVar('T2_{name}')", '',
+			f'class User_{name}:', f"\tdef make(self, k: 'K_{name}[{ty}]') -> {ty}:", '\t\treturn k.second()', '',
+			f'class Item_{name}:', '\tdef tag(self) -> int:', '\t\treturn 1', '',
+			f'class G_{name}(Generic[T_{name}]):', f'\tdef first(self) -> T_{name}:', '\t\t...', '',
+			f'class K_{name}(G_{name}[Item_{name}], Generic[T2_{name}]):', f'\tdef second(self) -> T2_{name}:', '\t\t...']
 	gcall = {i: ('val()' if i in ANON else f'g_{i}()') for i in imports}
 	vname = {i: ('v' if i in ANON else f'v_{i}') for i in imports}
 	lines += ['', f'def g_{name}() -> {ty}:', f'\treturn {lit}', '']
@@ -143,6 +153,11 @@ def module_source(name: str, imports: list[str], variant: int) -> str:
 	for i in imports[:1]:
 		if i not in ANON:
 			lines += [f'def u_{name}(a: A_{i}) -> None:', '\tq = a.g()', '\tr = q', '\tprint(r)', '']
+	if ext & 2:
+		# BROKEN: the transpile of this module FAILS (no such method), in a call that spans three lines, on a class (imported if there
+		# is one, else the module's own) whose definition spans many — the run's result is the printed error report with these spans
+		cls = next((f'A_{i}' for i in imports if i not in ANON), f'A_{name}')
+		lines += [f'def bad_{name}(p: {cls}) -> int:', '\treturn p.missing(', '\t\t1,', '\t\t2)', '']
 	return '\n'.join(lines)
 
 
@@ -611,11 +626,48 @@ def closure(graph: dict[str, list[str]], m: str) -> set[str]:
 	return out
 
 
-def outcome(proj: tproj.Project, res: tproj.RunResult) -> tuple[str, dict[str, bytes]]:
-	return (error_kind(res), proj.output_files())
+def failure_report(proj: tproj.Project, res: tproj.RunResult) -> str:
+	"""What a failing run PRINTS about the failure (bin/transpile.py: `print(ErrorRender(e))`) without the stack trace of the
+	tranp process: the quotation of the node (`via Node:` file, line, source line, caret range) and `<error>: <message>` with the
+	node's span — rendered with the project as working directory, like the command line does. '' for a run that succeeded."""
+	if res.exc is None or isinstance(res.exc, tproj.RunDoesNotEnd):
+		return ''
+	old = os.getcwd()
+	os.chdir(proj.root)
+	try:
+		from rogw.tranp.view.error_render import ErrorRender
+		with tproj.run_budget(20.0):
+			text = ErrorRender(res.exc).render()		# type: ignore[arg-type]
+	except tproj.RunBudgetExceeded:
+		return 'render-does-not-end'
+	except Exception as e:  # noqa: BLE001 - rule 14: the renderer raising is an outcome
+		return f'render-raises:{common.exc_enum(e)}'
+	finally:
+		os.chdir(old)
+	lines = text.replace(proj.root + os.sep, '').replace(proj.root, '<project>').split('\n')
+	at = lines.index('via Node:') if 'via Node:' in lines else len(lines) - 1
+	return '\n'.join(lines[at:])
 
 
-def cold_outcome(ctx: Ctx, lib: LibInfo, proj: tproj.Project, force: bool, enabled: bool, seeded: bool) -> tuple[str, dict[str, bytes]]:
+def outcome(proj: tproj.Project, res: tproj.RunResult) -> tuple[str, dict[str, bytes], str]:
+	"""(status, every output file, the printed failure report): the RESULT of a run"""
+	return (error_kind(res), proj.output_files(), failure_report(proj, res))
+
+
+def outcome_diff(a: tuple[str, dict[str, bytes], str], b: tuple[str, dict[str, bytes], str]) -> str:
+	diff = diff_modules(a[1], b[1])
+	if diff:
+		return f'{diff}: ' + first_diff_line(a[1].get(diff[0], b''), b[1].get(diff[0], b''))
+	if a[0] != b[0]:
+		return f'status {a[0]} vs {b[0]}' + (f' ({(a[2] or b[2]).splitlines()[-1][:160]})' if (a[2] or b[2]) else '')
+	la, lb = a[2].split('\n'), b[2].split('\n')
+	for x, y in zip(la, lb):
+		if x != y:
+			return f'the printed error report: {x.strip()!r} vs {y.strip()!r}'
+	return f'the printed error report: {len(la)} vs {len(lb)} lines'
+
+
+def cold_outcome(ctx: Ctx, lib: LibInfo, proj: tproj.Project, force: bool, enabled: bool, seeded: bool) -> tuple[str, dict[str, bytes], str]:
 	"""The same run on a copy of the project whose cache directory is empty (`seeded`: holding only the files an empty-cache
 	`Modules.libralies()` produces — the library sources never change; a finding is always confirmed with seeded=False)."""
 	cold = proj.clone(ctx.tmpdir('tranp-c05-cold-'))
@@ -764,13 +816,28 @@ def search_warm_cold(ctx: Ctx, only: list[tuple[str, dict[str, int], list[list[s
 		vs = [str(20 + (variants[leaf] + k) % 4) for k in (1, 2)]
 		histories.append((shape, variants, [['run', '1'], ['edit', leaf, vs[0]], ['run', rng.choice(['0', '1'])], ['editat', leaf, vs[1], 'own:0'], ['run', '1']]))
 		histories.append((shape, variants, [['run', '1'], ['editat', top, str(20 + (variants[top] + 1) % 4), f'mod:{leaf}'], ['run', '1'], ['editat', leaf, vs[0], f'mod:{top}'], ['run', '0']]))
-		# … these two run right after the corpus (the run budget of the quick tier ends the list early)
+		# forward references to generic classes declared further down (FWD, variant + 48): the file the cold run stores must restore
+		# in the warm runs; and a module whose transpile FAILS on a node spanning several lines (BROKEN, variant + 96): the printed
+		# error report of the warm run (trees and symbols from the cache) must be the cold run's, then the module is repaired
+		shape = rng.choice(['chain2', 'chain3', 'vee', 'fan3'])
+		graph = graph_shapes()[shape]
+		mods = list(graph)
+		variants = {m: 20 + (1 + i) % 4 + N_VARIANTS * (1 if i != 0 or rng.random() < 0.5 else 0) for i, m in enumerate(graph)}
+		histories.append((shape, variants, [['run', '1'], ['run', '1'], ['edit', mods[0], str((variants[mods[0]] + 1) % 4 + 20 + N_VARIANTS)], ['run', '0']]))
+		shape = rng.choice(['chain2', 'chain3', 'vee'])
+		graph = graph_shapes()[shape]
+		mods = list(graph)
+		variants = {m: 20 + (2 + i) % 4 for i, m in enumerate(graph)}
+		bad = rng.choice([m for m in mods if graph[m]])
+		variants[bad] += 2 * N_VARIANTS
+		histories.append((shape, variants, [['run', '1'], ['run', '1'], ['run', '0'], ['edit', bad, str(variants[bad] - 2 * N_VARIANTS)], ['run', '1']]))
+		# … these four run right after the corpus (the run budget of the quick tier ends the list early)
 		n_corpus = sum(1 for rec in load_corpus() if rec.get('search') == 'warm-cold')
-		histories[n_corpus:n_corpus] = [histories.pop(), histories.pop()][::-1]
+		histories[n_corpus:n_corpus] = [histories.pop(), histories.pop(), histories.pop(), histories.pop()][::-1]
 	n_random = ctx.scale(5, 80) if only is None else 0
 	hist: dict[str, int] = {}
 	seen: set[str] = set()
-	budget_runs = -(-ctx.scale(68, 400) // part[1])
+	budget_runs = -(-ctx.scale(84, 400) // part[1])
 	runs = 0
 	dl = new_deadline('search warm-cold', ctx.scale(300, 1200))
 	for hi in range(len(histories) + n_random):
@@ -801,7 +868,9 @@ def search_warm_cold(ctx: Ctx, only: list[tuple[str, dict[str, int], list[list[s
 					op = next_op(rng, case, allow_damage=False, allow_disable=False, last_was_run=last_run)
 					if i == 0:
 						op = ['run', '1']
-					elif op[0] == 'edit' and rng.random() < 0.2:
+					if op[0] == 'edit' and rng.random() < 0.3:
+						op = ['edit', op[1], str(int(op[2]) % N_VARIANTS + N_VARIANTS * rng.choice([1, 1, 2, 3]))]		# FWD / BROKEN sources
+					if i != 0 and op[0] == 'edit' and rng.random() < 0.2:
 						# the edit takes an mtime that was in use before: an earlier one of the module itself, or another module's
 						m = op[1]
 						spec = f'own:{rng.randrange(len(case.ticks[m]))}' if rng.random() < 0.6 else f'mod:{rng.choice(list(case.graph))}'
@@ -847,7 +916,7 @@ def search_warm_cold(ctx: Ctx, only: list[tuple[str, dict[str, int], list[list[s
 					if confirm != cold:
 						# the memoised library files are themselves cache files an earlier run left behind: they change the output
 						diff = diff_modules(cold[1], confirm[1])
-						detail = first_diff_line(cold[1].get(diff[0], b''), confirm[1].get(diff[0], b'')) if diff else f'status {cold[0]} vs {confirm[0]}'
+						detail = outcome_diff(cold, confirm)
 						res.findings.append(Finding(key='library-cache-changes-output', what=f'the run over a cache directory holding only the files of an earlier empty-cache Modules.libralies() differs from the run over an empty cache directory in {diff or "status"}: {detail}',
 							replay={'search': 'warm-cold', 'shape': shape, 'variants': variants, 'ops': ops_done}))
 						hist['finding:library-cache-changes-output'] = hist.get('finding:library-cache-changes-output', 0) + 1
@@ -855,8 +924,8 @@ def search_warm_cold(ctx: Ctx, only: list[tuple[str, dict[str, int], list[list[s
 						break
 					key, why = diagnose_warm_cold(ctx, lib, case, pre, force, cold, snapshots, {p for k, p in r.events if k == 'r'})
 					diff = diff_modules(warm[1], cold[1])
-					detail = first_diff_line(warm[1].get(diff[0], b''), cold[1].get(diff[0], b'')) if diff else f'status {warm[0]} vs {cold[0]}'
-					res.findings.append(Finding(key=key, what=f'warm output differs from cold output in {diff or "status"}: {detail}; {why}',
+					detail = outcome_diff(warm, cold)
+					res.findings.append(Finding(key=key, what=f'warm result differs from cold result in {diff or "status / printed error report"}: {detail}; {why}',
 						replay={'search': 'warm-cold', 'shape': shape, 'variants': variants, 'ops': ops_done}))
 					hist[f'finding:{key}'] = hist.get(f'finding:{key}', 0) + 1
 					shutil.rmtree(pre.root, ignore_errors=True)
@@ -1211,7 +1280,7 @@ def run(ctx: Ctx) -> int:
 			'sentence 1 (warm output = cold output)': 'proved on the model: output_warm_cold (rendered text, failure status, loaded modules, trees, tables equal) for acyclic import graphs, histories without interrupted write / grammar change; tree_key, symbols also for histories with trunc ops (per module, when both runs succeed)',
 			'sentence 1 (no cache file read or written when disabled)': 'proved (disabled)',
 			'sentence 2 (damaged file: rebuild or fail)': 'truncate_decoder (the modelled json.loads accepts the whole file and rejects every proper prefix of a written object/array) and truncate (bracket balance, JSON printer model) discharge Hyp.prefix_invalid / dec_prefix for the JSON layers (tree, symbol files) at the decoder-model level; inside tree_key/symbols/parser_key they stay hypotheses of the abstract semantics (histories contain trunc ops); parser_truncated; for the pickle (parser.cache-*.bin) prefix rejection is search-only (truncation search, every offset sampled)',
-			'search_only': 'the real renderer and analyser (parameters of the model); output equality on the real code',
+			'search_only': 'the real renderer and analyser (parameters of the model); equality of the RESULT on the real code = status, every output file and — for a failing run — the printed error report (quotation and message with the node spans; the stack trace of the tranp process is not part of it), over sources that include forward (quoted) references to generic classes declared later and modules whose transpile fails on a node spanning several lines',
 			'regression': 'corpus/C05: the histories that violated the property before a3f0216 / a383b4a / 9dfb5b4 are replayed first and must pass',
 			'key coverage': 'per cache, over key lists GENERATED from the source: parser_key_covers (covers), tree_key_covers (covers since 9dfb5b4; run-level: tree_key admits ParserSetting switches, tree_key_setting), symbol_key_covers (covers the import closure; symbol_key_no_grammar: nothing of the grammar — `symbols`/`output_warm_cold` assume no grammar change); tree_name_exact / parser_name_exact tie the model\'s file names to the generated lists in both directions; the symbol identity is tied statement by statement (symbol_identity_shape), its reading as identityCore/collect is by inspection',
 		},
